@@ -1,17 +1,17 @@
-(* C02: the decorator is elided only where the analyzer re-infers the same
-   type; round trip of the anonymous fragment; witnesses of the defects of the
-   faithful model. *)
-From ZV Require Import Base.Prelude Model.Escape Model.Zson.
+(* C02: proofs about the decorator logic (Model/Zson.v).
+   PL   a value formatted under a known type is read back by that type;
+   FTg  formatType is read back by convertType, typedefs included;
+   UL   a value formatted without a known type carries sufficient decorators;
+   top_roundtrip / stream_roundtrip: FormatValue/ParseValue and sequences. *)
+From ZV Require Import Base.Prelude Model.Escape Model.Zson Model.ZsonSpec.
 Local Open Scope N_scope.
 
-(* ---------- induction principle for the nested type ---------- *)
 Section TyInd.
   Variable P : ty -> Prop.
   Hypothesis HPrim : forall p, P (TPrim p).
   Hypothesis HRec : forall fs, Forall (fun nt => P (snd nt)) fs -> P (TRec fs).
   Hypothesis HArr : forall t, P t -> P (TArr t).
   Hypothesis HNamed : forall n t, P t -> P (TNamed n t).
-
   Fixpoint ty_ind' (t : ty) : P t :=
     match t with
     | TPrim p => HPrim p
@@ -26,8 +26,10 @@ Section TyInd.
     end.
 End TyInd.
 
+Lemma name_eqb_eq n m : name_eqb n m = true <-> n = m.
+Proof. apply list_eqb_eq. intros; apply N.eqb_eq. Qed.
 Lemma name_eqb_refl n : name_eqb n n = true.
-Proof. apply list_eqb_eq; [intros; apply N.eqb_eq | reflexivity]. Qed.
+Proof. apply name_eqb_eq. reflexivity. Qed.
 
 Lemma ty_eqb_refl : forall t, ty_eqb t t = true.
 Proof.
@@ -39,104 +41,685 @@ Proof.
   - rewrite name_eqb_refl, IH. reflexivity.
 Qed.
 
-(* ---------- the anonymous fragment ---------- *)
-Fixpoint anon (t : ty) : Prop :=
-  match t with
-  | TPrim _ => True
-  | TRec fs => (fix go (fs : list (name * ty)) : Prop :=
-                  match fs with [] => True | (_, ft) :: fr => anon ft /\ go fr end) fs
-  | TArr u => anon u
-  | TNamed _ _ => False
-  end.
-
-(* well-formed values: the token of a primitive value is one the parser can
-   use at that type (castType), and has that very type when it is implied *)
-Fixpoint wf (t : ty) (v : val) {struct t} : Prop :=
-  match v with
-  | VNull => True
-  | _ =>
-    match t with
-    | TPrim p =>
-      match v with
-      | VPrim cls tok =>
-        cls <> ID_NULL /\ p <> ID_NULL /\ cast_ok cls (TPrim p) = true /\
-        (implied_prim p = true -> cls = p)
-      | _ => False
-      end
-    | TRec fs =>
-      match v with
-      | VRec vs =>
-        (fix go (fs : list (name * ty)) (vs : list val) : Prop :=
-           match fs, vs with
-           | [], [] => True
-           | (_, ft) :: fr, x :: xr => wf ft x /\ go fr xr
-           | _, _ => False
-           end) fs vs
-      | _ => False
-      end
-    | TArr u =>
-      match v with
-      | VArr vs => (fix go (vs : list val) : Prop :=
-                      match vs with [] => True | x :: xr => wf u x /\ go xr end) vs
-      | _ => False
-      end
-    | TNamed _ u => wf u v
-    end
-  end.
-
-Lemma anon_has_name P st t : anon t -> has_name P st t = false.
-Proof. destruct t; simpl; try reflexivity. intros []. Qed.
-
-Lemma anon_name_of P st t : anon t -> name_of P st t = None.
-Proof. destruct t; simpl; try reflexivity. intros []. Qed.
-
-(* formatType of an anonymous type is read back by convertType; no state changes *)
-Lemma fmt_type_anon P : forall t st a, anon t ->
-  exists y, fmt_type P st t = (y, st) /\ conv_type a y = Some (t, a).
+Lemma ty_eqb_eq : forall a b, ty_eqb a b = true -> a = b.
 Proof.
-  induction t as [p | fs IH | t IH | n t IH] using ty_ind'; intros st a A.
-  - exists (YPrim p). split; reflexivity.
-  - assert (L : exists ys,
-      (fix go (fs : list (name * ty)) (st : fstate) : list (name * tyast) * fstate :=
-         match fs with
-         | [] => ([], st)
-         | (n, ft) :: fr =>
-           let '(y, st1) := fmt_type P st ft in
-           let '(ys, st2) := go fr st1 in ((n, y) :: ys, st2)
-         end) fs st = (ys, st) /\
-      (fix go (fs : list (name * tyast)) (a : astate) : option (list (name * ty) * astate) :=
-         match fs with
-         | [] => Some ([], a)
-         | (n, fy) :: fr =>
-           match conv_type a fy with
-           | Some (t, a1) =>
-             match go fr a1 with Some (ts, a2) => Some ((n, t) :: ts, a2) | None => None end
-           | None => None
-           end
-         end) ys a = Some (fs, a)).
-    { induction IH as [| [n ft] fr H _ IHfr].
-      - exists []. split; reflexivity.
-      - simpl in A. destruct A as [A1 A2]. simpl in H.
-        destruct (H st a A1) as (y & F & C). destruct (IHfr A2) as (ys & Fs & Cs).
-        exists ((n, y) :: ys). split.
-        + rewrite F, Fs. reflexivity.
-        + rewrite C, Cs. reflexivity. }
-    destruct L as (ys & Fs & Cs).
-    exists (YRec ys). split.
-    + simpl. rewrite Fs. reflexivity.
-    + simpl. rewrite Cs. reflexivity.
-  - simpl in A. destruct (IH st a A) as (y & F & C).
-    exists (YArr y). split; simpl; [rewrite F | rewrite C]; reflexivity.
-  - destruct A.
+  induction a as [p|fs IH|t IH|n t IH] using ty_ind'; destruct b as [q|gs|u|m u]; simpl; try discriminate; intros E.
+  - apply N.eqb_eq in E; congruence.
+  - f_equal. revert gs E. induction IH as [|[n ft] fr H _ IHfr]; destruct gs as [|[m gt] gr]; try discriminate; intros E; [reflexivity|].
+    apply andb_true_iff in E as [E1 E3]. apply andb_true_iff in E1 as [E1 E2].
+    apply name_eqb_eq in E1. simpl in H. apply H in E2. subst. f_equal. apply IHfr. exact E3.
+  - f_equal; auto.
+  - apply andb_true_iff in E as [E1 E2]. apply name_eqb_eq in E1. f_equal; auto.
 Qed.
 
-Lemma implied_arr_elem u : implied (TArr u) = implied u.
+Lemma names_of_rec n ft fr : names_of (TRec ((n, ft) :: fr)) = names_of ft ++ names_of (TRec fr).
+Proof. reflexivity. Qed.
+Lemma good_rec n ft fr : good (TRec ((n, ft) :: fr)) = (good ft /\ good (TRec fr)).
+Proof. reflexivity. Qed.
+
+Lemma wf_rec_cons n ft fr x xr : wf (TRec ((n, ft) :: fr)) (VRec (x :: xr)) = (wf ft x /\ wf (TRec fr) (VRec xr)).
+Proof. reflexivity. Qed.
+Lemma wf_arr_cons u x xr : wf (TArr u) (VArr (x :: xr)) = (wf u x /\ wf (TArr u) (VArr xr)).
+Proof. reflexivity. Qed.
+
+(* list helpers with which the nested fixpoints of the model are restated *)
+Definition fv_fields (P : persist) (known pi : bool)
+  : list (name * ty) -> list val -> fstate -> list (name * zval) * fstate :=
+  fix go (fs : list (name * ty)) (vs : list val) (st : fstate) : list (name * zval) * fstate :=
+    match fs, vs with
+    | (n, ft) :: fr, x :: xr =>
+      let '(z, _, st1) := fv P st ft x known pi true in
+      let '(zs, st2) := go fr xr st1 in ((n, z) :: zs, st2)
+    | _, _ => ([], st)
+    end.
+
+Definition fv_elems (P : persist) (known pi : bool) (u : ty)
+  : list val -> fstate -> list zval * fstate :=
+  fix go (vs : list val) (st : fstate) : list zval * fstate :=
+    match vs with
+    | [] => ([], st)
+    | x :: xr =>
+      let '(z, _, st1) := fv P st u x known pi true in
+      let '(zs, st2) := go xr st1 in (z :: zs, st2)
+    end.
+
+Definition fin (P : persist) (t : ty) (pk dec : bool) (r : zval * bool * fstate) : zval * bool * fstate :=
+  let '(z, isnull, st1) := r in
+  if dec then let '(d, st2) := decorate P st1 t pk isnull in (wrap z d, isnull, st2)
+  else (z, isnull, st1).
+
+Lemma fv_null P st t pk pi dec :
+  fv P st t VNull pk pi dec =
+  if dec then let '(d, st1) := decorate P st t (if pi then false else pk) true in (wrap znull d, true, st1)
+  else (znull, true, st).
+Proof. destruct t; reflexivity. Qed.
+
+Lemma fv_prim P st p cls tok pk pi dec :
+  fv P st (TPrim p) (VPrim cls tok) pk pi dec = fin P (TPrim p) pk dec (ZImplied (APrim cls tok), false, st).
+Proof. reflexivity. Qed.
+
+Lemma fv_rec P st fs vs pk pi dec :
+  fv P st (TRec fs) (VRec vs) pk pi dec =
+  fin P (TRec fs) pk dec
+    (let '(zs, st1) := fv_fields P (pk || false) pi fs vs st in (ZImplied (ARec zs), false, st1)).
+Proof. reflexivity. Qed.
+
+Lemma fv_arr_nil P st u pk pi dec :
+  fv P st (TArr u) (VArr []) pk pi dec = fin P (TArr u) pk dec (ZImplied (AArr []), true, st).
+Proof. reflexivity. Qed.
+
+Lemma fv_arr_cons P st u x xr pk pi dec :
+  fv P st (TArr u) (VArr (x :: xr)) pk pi dec =
+  fin P (TArr u) pk dec
+    (let '(zs, st1) := fv_elems P (pk || false) pi u (x :: xr) st in (ZImplied (AArr zs), false, st1)).
+Proof. reflexivity. Qed.
+
+Lemma fv_named P st n u v pk pi dec : v <> VNull ->
+  fv P st (TNamed n u) v pk pi dec =
+  fin P (TNamed n u) pk dec (fv P st u v (pk || has_name P st (TNamed n u)) pi false).
+Proof. destruct v; [congruence | reflexivity ..]. Qed.
+
+Lemma fv_fields_cons P known pi n ft fr x xr st :
+  fv_fields P known pi ((n, ft) :: fr) (x :: xr) st =
+  let '(z, _, st1) := fv P st ft x known pi true in
+  let '(zs, st2) := fv_fields P known pi fr xr st1 in ((n, z) :: zs, st2).
+Proof. reflexivity. Qed.
+
+Lemma fv_elems_cons P known pi u x xr st :
+  fv_elems P known pi u (x :: xr) st =
+  let '(z, _, st1) := fv P st u x known pi true in
+  let '(zs, st2) := fv_elems P known pi u xr st1 in (z :: zs, st2).
+Proof. reflexivity. Qed.
+
+(* analyzer helpers *)
+Definition conv_fields_cast : list (name * zval) -> list (name * ty) -> astate -> option (list val * astate) :=
+  fix go (fs : list (name * zval)) (tfs : list (name * ty)) (a : astate) : option (list val * astate) :=
+    match fs, tfs with
+    | (_, z) :: fr, (_, ft) :: tr =>
+      match conv_val a z (Some ft) with
+      | Some (_, v, a1) =>
+        match go fr tr a1 with Some (vs, a2) => Some (v :: vs, a2) | None => None end
+      | None => None
+      end
+    | _, _ => Some ([], a)
+    end.
+
+Definition conv_fields_infer : list (name * zval) -> astate -> option (list (name * ty) * list val * astate) :=
+  fix go (fs : list (name * zval)) (a : astate) : option (list (name * ty) * list val * astate) :=
+    match fs with
+    | [] => Some ([], [], a)
+    | (n, z) :: fr =>
+      match conv_val a z None with
+      | Some (t, v, a1) =>
+        match go fr a1 with
+        | Some (ts, vs, a2) => Some ((n, t) :: ts, v :: vs, a2)
+        | None => None
+        end
+      | None => None
+      end
+    end.
+
+Definition conv_elems (ep : option ty) : list zval -> astate -> option (list ty * list val * astate) :=
+  fix go (es : list zval) (a : astate) : option (list ty * list val * astate) :=
+    match es with
+    | [] => Some ([], [], a)
+    | z :: er =>
+      match conv_val a z ep with
+      | Some (t, v, a1) =>
+        match go er a1 with
+        | Some (ts, vs, a2) => Some (t :: ts, v :: vs, a2)
+        | None => None
+        end
+      | None => None
+      end
+    end.
+
+Lemma conv_any_rec_cast a fs c tfs :
+  under c = TRec tfs ->
+  conv_any a (ARec fs) (Some c) =
+  if Nat.eqb (List.length tfs) (List.length fs) then
+    match conv_fields_cast fs tfs a with
+    | Some (vs, a') => Some (c, VRec vs, a')
+    | None => None
+    end
+  else None.
+Proof. intros U. cbn [conv_any]. rewrite U. reflexivity. Qed.
+
+Lemma conv_any_rec_infer a fs :
+  conv_any a (ARec fs) None =
+  match conv_fields_infer fs a with
+  | Some (ts, vs, a') => Some (TRec ts, VRec vs, a')
+  | None => None
+  end.
+Proof. reflexivity. Qed.
+
+Lemma conv_any_arr_cast a es c u :
+  under c = TArr u ->
+  conv_any a (AArr es) (Some c) =
+  match conv_elems (Some u) es a with
+  | Some (ts, vs, a') => Some (c, VArr vs, a')
+  | None => None
+  end.
+Proof. intros U. cbn [conv_any]. rewrite U. reflexivity. Qed.
+
+Lemma conv_any_arr_infer a es :
+  conv_any a (AArr es) None =
+  match conv_elems None es a with
+  | Some (ts, vs, a') =>
+    match elem_type ts with Some u => Some (TArr u, VArr vs, a') | None => None end
+  | None => None
+  end.
+Proof. reflexivity. Qed.
+
+Lemma conv_any_prim_cast a cls tok c :
+  conv_any a (APrim cls tok) (Some c) =
+  if cast_ok cls c then Some (c, (if cls =? ID_NULL then VNull else VPrim cls tok), a) else None.
+Proof. reflexivity. Qed.
+
+Lemma conv_val_cast_implied a x y parent :
+  conv_val a (ZCast (ZImplied x) y) parent =
+  match conv_type a y with
+  | None => None
+  | Some (cast, a2) => if type_check cast parent then conv_any a2 x (Some cast) else None
+  end.
+Proof. reflexivity. Qed.
+
+Lemma conv_val_def a x n parent :
+  conv_val a (ZDef x n) parent =
+  match conv_any a x parent with
+  | Some (t, v, a1) =>
+    if restates parent t n then Some (t, v, (n, t) :: a1)
+    else let t' := if numeric n then t else TNamed n t in Some (t', v, (n, t') :: a1)
+  | None => None
+  end.
+Proof. reflexivity. Qed.
+
+Lemma cast_ok_under cls c c' : under c = under c' -> cast_ok cls c = cast_ok cls c'.
+Proof. intros U. unfold cast_ok. rewrite U. reflexivity. Qed.
+
+Lemma cast_ok_null c : cast_ok ID_NULL c = true.
+Proof. reflexivity. Qed.
+
+(* ---- association lists, the invariant between formatter and analyzer ---- *)
+Lemma assoc_cons n m t l : assoc n ((m, t) :: l) = if name_eqb n m then Some t else assoc n l.
+Proof. reflexivity. Qed.
+
+Lemma name_eqb_neq n m : n <> m -> name_eqb n m = false.
+Proof. intros H. destruct (name_eqb n m) eqn:E; [|reflexivity]. apply name_eqb_eq in E. contradiction. Qed.
+
+Lemma name_of_named P st t n : name_of P st t = Some n -> exists u, t = TNamed n u.
+Proof.
+  destruct t as [| | |m u]; simpl; try discriminate.
+  destruct (bound_to m (TNamed m u) (tdefs st)); [intros E; inversion E; eauto|].
+  destruct (persist_enabled P && bound_to m (TNamed m u) (perm st)); [intros E; inversion E; eauto | discriminate].
+Qed.
+
+Lemma bound_to_assoc n t l : bound_to n t l = true -> assoc n l = Some t.
+Proof.
+  unfold bound_to. destruct (assoc n l) as [u|]; [|discriminate].
+  intros E. apply ty_eqb_eq in E. congruence.
+Qed.
+
+Lemma name_of_sound P st a t n : Inv P st a -> name_of P st t = Some n -> assoc n a = Some t.
+Proof.
+  intros (I1 & I2 & _) H. destruct (name_of_named _ _ _ _ H) as (u & ->).
+  simpl in H.
+  destruct (bound_to n (TNamed n u) (tdefs st)) eqn:B1.
+  - apply I1. apply bound_to_assoc. exact B1.
+  - destruct (persist_enabled P) eqn:EP; simpl in H; [|discriminate].
+    destruct (bound_to n (TNamed n u) (perm st)) eqn:B2; [|discriminate].
+    apply (I2 eq_refl). apply bound_to_assoc. exact B2.
+Qed.
+
+Lemma frame_refl ns st : frame ns st st.
+Proof. intros m _. split; reflexivity. Qed.
+
+Lemma frame_trans ns1 ns2 st st1 st2 :
+  frame ns1 st st1 -> frame ns2 st1 st2 -> frame (ns1 ++ ns2) st st2.
+Proof.
+  intros F1 F2 m H.
+  assert (H1 : ~ In m ns1) by (intros X; apply H, in_or_app; left; exact X).
+  assert (H2 : ~ In m ns2) by (intros X; apply H, in_or_app; right; exact X).
+  destruct (F1 m H1) as [A1 B1]. destruct (F2 m H2) as [A2 B2].
+  split; congruence.
+Qed.
+
+Lemma frame_weaken ns ns' st st' : incl ns ns' -> frame ns st st' -> frame ns' st st'.
+Proof. intros I F m H. apply F. intros X. apply H, I, X. Qed.
+
+Lemma name_of_frame P ns st st' n u :
+  frame ns st st' -> ~ In n ns -> name_of P st' (TNamed n u) = name_of P st (TNamed n u).
+Proof.
+  intros F H. destruct (F n H) as [A B]. unfold name_of, bound_to. rewrite A, B. reflexivity.
+Qed.
+
+Lemma save_tdefs P st n t m :
+  assoc m (tdefs (save_type P st n t)) = if name_eqb m n then Some t else assoc m (tdefs st).
+Proof. reflexivity. Qed.
+
+Lemma save_perm P st n t m :
+  assoc m (perm (save_type P st n t)) =
+  if persist_enabled P && persist_match P n then (if name_eqb m n then Some t else assoc m (perm st))
+  else assoc m (perm st).
+Proof. unfold save_type. simpl. destruct (persist_enabled P && persist_match P n); reflexivity. Qed.
+
+Lemma frame_save P st n t : frame [n] st (save_type P st n t).
+Proof.
+  intros m H. assert (E : name_eqb m n = false).
+  { apply name_eqb_neq. intros ->. apply H. left. reflexivity. }
+  rewrite save_tdefs, save_perm, E. destruct (persist_enabled P && persist_match P n); split; reflexivity.
+Qed.
+
+Lemma Inv_save P st a n t : Inv P st a -> Inv P (save_type P st n t) ((n, t) :: a).
+Proof.
+  intros (I1 & I2 & I3). split; [|split].
+  - intros m u. rewrite save_tdefs, assoc_cons. destruct (name_eqb m n); [auto | apply I1].
+  - intros EP m u. rewrite save_perm, assoc_cons.
+    destruct (persist_enabled P && persist_match P n) eqn:PM.
+    + destruct (name_eqb m n); [auto | apply (I2 EP)].
+    + intros H. specialize (I3 _ _ H).
+      destruct (name_eqb m n) eqn:E; [|apply (I2 EP); exact H].
+      apply name_eqb_eq in E. subst m. congruence.
+  - intros m u. rewrite save_perm.
+    destruct (persist_enabled P && persist_match P n) eqn:PM; [|apply I3].
+    destruct (name_eqb m n) eqn:E; [|apply I3].
+    apply name_eqb_eq in E. subst m. intros _. exact PM.
+Qed.
+
+(* ---- types without names ---- *)
+Lemma anon_not_named t : names_of t = [] -> is_named t = false.
+Proof. destruct t; simpl; congruence. Qed.
+
+Lemma anon_under t : names_of t = [] -> under t = t.
+Proof. destruct t; simpl; congruence. Qed.
+
+Lemma name_of_nonnamed P st t : is_named t = false -> name_of P st t = None.
+Proof. destruct t; simpl; congruence. Qed.
+
+Lemma names_rec_nil n ft fr : names_of (TRec ((n, ft) :: fr)) = [] -> names_of ft = [] /\ names_of (TRec fr) = [].
+Proof. rewrite names_of_rec. apply app_eq_nil. Qed.
+
+Definition fmt_type_fields (P : persist) : list (name * ty) -> fstate -> list (name * tyast) * fstate :=
+  fix go (fs : list (name * ty)) (st : fstate) : list (name * tyast) * fstate :=
+    match fs with
+    | [] => ([], st)
+    | (n, ft) :: fr =>
+      let '(y, st1) := fmt_type P st ft in
+      let '(ys, st2) := go fr st1 in ((n, y) :: ys, st2)
+    end.
+
+Definition conv_type_fields : list (name * tyast) -> astate -> option (list (name * ty) * astate) :=
+  fix go (fs : list (name * tyast)) (a : astate) : option (list (name * ty) * astate) :=
+    match fs with
+    | [] => Some ([], a)
+    | (n, fy) :: fr =>
+      match conv_type a fy with
+      | Some (t, a1) =>
+        match go fr a1 with Some (ts, a2) => Some ((n, t) :: ts, a2) | None => None end
+      | None => None
+      end
+    end.
+
+Lemma fmt_type_rec P st fs :
+  fmt_type P st (TRec fs) = let '(ys, st') := fmt_type_fields P fs st in (YRec ys, st').
+Proof. reflexivity. Qed.
+
+Lemma conv_type_rec a ys :
+  conv_type a (YRec ys) =
+  match conv_type_fields ys a with Some (ts, a') => Some (TRec ts, a') | None => None end.
+Proof. reflexivity. Qed.
+
+Lemma fmt_type_named P st n u :
+  fmt_type P st (TNamed n u) =
+  match name_of P st (TNamed n u) with
+  | Some m => (YName m, st)
+  | None => let '(y, st2) := fmt_type P (save_type P st n (TNamed n u)) u in (YDef n y, st2)
+  end.
+Proof. reflexivity. Qed.
+
+Lemma fmt_type_anon P : forall t st, names_of t = [] ->
+  exists y, fmt_type P st t = (y, st) /\ forall a, conv_type a y = Some (t, a).
+Proof.
+  induction t as [p | fs IH | u IH | n u IH] using ty_ind'; intros st A.
+  - exists (YPrim p). split; [reflexivity | reflexivity].
+  - assert (L : exists ys, fmt_type_fields P fs st = (ys, st) /\ forall a, conv_type_fields ys a = Some (fs, a)).
+    { induction IH as [| [n ft] fr H _ IHfr].
+      - exists []. split; reflexivity.
+      - apply names_rec_nil in A. destruct A as [A1 A2]. simpl in H.
+        destruct (H st A1) as (y & F & C). destruct (IHfr A2) as (ys & Fs & Cs).
+        exists ((n, y) :: ys). split.
+        + cbn -[fmt_type]. rewrite F. fold (fmt_type_fields P). rewrite Fs. reflexivity.
+        + intros a. cbn -[conv_type]. rewrite C. fold conv_type_fields. rewrite Cs. reflexivity. }
+    destruct L as (ys & Fs & Cs). exists (YRec ys). split.
+    + rewrite fmt_type_rec, Fs. reflexivity.
+    + intros a. rewrite conv_type_rec, Cs. reflexivity.
+  - simpl in A. destruct (IH st A) as (y & F & C). exists (YArr y). split.
+    + cbn [fmt_type name_of]. rewrite F. reflexivity.
+    + intros a. cbn [conv_type]. rewrite C. reflexivity.
+  - discriminate.
+Qed.
+
+Lemma decorate_known P st t null : decorate P st t true null = (DNone, st).
+Proof. reflexivity. Qed.
+
+Lemma decorate_rec_false P st fs pk : decorate P st (TRec fs) pk false = (DNone, st).
+Proof.
+  unfold decorate. destruct pk; [reflexivity|]. cbn [orb negb andb name_of].
+  destruct (implied (TRec fs)) eqn:E; [reflexivity|].
+  cbn [selfdesc]. rewrite E. reflexivity.
+Qed.
+
+Lemma decorate_arr_false P st u pk : decorate P st (TArr u) pk false = (DNone, st).
+Proof.
+  unfold decorate. destruct pk; [reflexivity|]. cbn [orb negb andb name_of].
+  destruct (implied (TArr u)) eqn:E; [reflexivity|].
+  cbn [selfdesc]. rewrite E. reflexivity.
+Qed.
+
+(* a value that does not reveal its type, not bound to a name: the full type *)
+Lemma decorate_null_unbound P st t :
+  name_of P st t = None -> ty_eqb t (TPrim ID_NULL) = false ->
+  decorate P st t false true = let '(y, st') := fmt_type P st t in (DCast y, st').
+Proof.
+  intros N E. unfold decorate. rewrite E, N. cbn [orb negb andb].
+  rewrite andb_false_r. reflexivity.
+Qed.
+
+Lemma decorate_null_nulltype P st : decorate P st (TPrim ID_NULL) false true = (DNone, st).
 Proof. reflexivity. Qed.
 
 Lemma ty_eqb_prim u q : ty_eqb u (TPrim q) = true -> u = TPrim q.
+Proof. apply ty_eqb_eq. Qed.
+
+Lemma conv_znull a c : conv_val a znull (Some c) = Some (c, VNull, a).
+Proof. reflexivity. Qed.
+
+(* ---- values analysed under a type given by the context ---- *)
+Definition PLstmt (P : persist) (t : ty) : Prop :=
+  forall v st pk dec c,
+    wf t v -> under c = under t ->
+    (pk = false -> names_of (under t) = [] /\ (dec = true -> c = t /\ names_of t = [])) ->
+    exists z nl, fv P st t v pk false dec = (z, nl, st) /\
+                 (dec = false -> exists x, z = ZImplied x) /\
+                 forall a, conv_val a z (Some c) = Some (c, v, a).
+
+Lemma PL_null P t st pk dec c :
+  (pk = false -> names_of (under t) = [] /\ (dec = true -> c = t /\ names_of t = [])) ->
+  exists z nl, fv P st t VNull pk false dec = (z, nl, st) /\
+               (dec = false -> exists x, z = ZImplied x) /\
+               forall a, conv_val a z (Some c) = Some (c, VNull, a).
 Proof.
-  destruct u; simpl; try discriminate. intros E. apply N.eqb_eq in E. congruence.
+  intros H. rewrite fv_null. destruct dec.
+  - destruct pk.
+    + rewrite decorate_known. exists znull, true. split; [reflexivity | split; [discriminate | intros; apply conv_znull]].
+    + destruct (H eq_refl) as (_ & H2). destruct (H2 eq_refl) as (-> & A).
+      destruct (ty_eqb t (TPrim ID_NULL)) eqn:E.
+      * apply ty_eqb_prim in E. subst t. rewrite decorate_null_nulltype.
+        exists znull, true. split; [reflexivity | split; [discriminate | intros; apply conv_znull]].
+      * rewrite (decorate_null_unbound P st t (name_of_nonnamed _ _ _ (anon_not_named _ A)) E).
+        destruct (fmt_type_anon P t st A) as (y & F & C). rewrite F.
+        exists (ZCast znull y), true. split; [reflexivity|]. split; [discriminate|].
+        intros a. unfold znull. rewrite conv_val_cast_implied, C.
+        unfold type_check. rewrite ty_eqb_refl. reflexivity.
+  - exists znull, true. split; [reflexivity | split; [intros _; eexists; reflexivity | intros; apply conv_znull]].
 Qed.
+
+Lemma val_eq_null (v : val) : {v = VNull} + {v <> VNull}.
+Proof. destruct v; [left; reflexivity | right; discriminate ..]. Qed.
+
+Lemma wf_named n u v : v <> VNull -> wf (TNamed n u) v = wf u v.
+Proof. destruct v; [congruence | reflexivity ..]. Qed.
+
+Lemma wf_prim_inv p v : v <> VNull -> wf (TPrim p) v ->
+  exists cls tok, v = VPrim cls tok /\ cls <> ID_NULL /\ p <> ID_NULL /\
+                  cast_ok cls (TPrim p) = true /\ (implied_prim p = true -> cls = p).
+Proof. destruct v; simpl; try congruence; try contradiction. intros _ H. eauto 8. Qed.
+
+Lemma wf_rec_inv fs v : v <> VNull -> wf (TRec fs) v -> exists vs, v = VRec vs.
+Proof. destruct v; simpl; try congruence; try contradiction. eauto. Qed.
+
+Lemma wf_arr_inv u v : v <> VNull -> wf (TArr u) v -> exists vs, v = VArr vs.
+Proof. destruct v; simpl; try congruence; try contradiction. eauto. Qed.
+
+Lemma PL_fields P : forall fs,
+  Forall (fun nt => PLstmt P (snd nt)) fs ->
+  forall vs st pk, wf (TRec fs) (VRec vs) -> (pk = false -> names_of (TRec fs) = []) ->
+  exists zs, fv_fields P pk false fs vs st = (zs, st) /\ List.length zs = List.length fs /\
+             forall a, conv_fields_cast zs fs a = Some (vs, a).
+Proof.
+  induction 1 as [| [n ft] fr H _ IHfr]; intros vs st pk W A.
+  - destruct vs; [|simpl in W; contradiction]. exists []. repeat split; reflexivity.
+  - destruct vs as [|x xr]; [simpl in W; contradiction|].
+    rewrite wf_rec_cons in W. destruct W as [W1 W2]. simpl in H.
+    assert (A' : pk = false -> names_of ft = [] /\ names_of (TRec fr) = []).
+    { intros E. apply (names_rec_nil n). auto. }
+    destruct (H x st pk true ft W1 eq_refl) as (z & nl & F & _ & C).
+    { intros E. destruct (A' E) as [A1 _]. rewrite (anon_under _ A1). auto. }
+    destruct (IHfr xr st pk W2) as (zs & Fs & L & Cs).
+    { intros E. apply A'. exact E. }
+    exists ((n, z) :: zs). split; [|split].
+    + rewrite fv_fields_cons, F, Fs. reflexivity.
+    + simpl. rewrite L. reflexivity.
+    + intros a. cbn -[conv_val]. rewrite C. fold conv_fields_cast. rewrite Cs. reflexivity.
+Qed.
+
+Lemma PL_elems P u : PLstmt P u ->
+  forall vs st pk, wf (TArr u) (VArr vs) -> (pk = false -> names_of u = []) ->
+  exists zs, fv_elems P pk false u vs st = (zs, st) /\
+             forall a, conv_elems (Some u) zs a = Some (map (fun _ => u) vs, vs, a).
+Proof.
+  intros H. induction vs as [|x xr IHx]; intros st pk W A.
+  - exists []. split; reflexivity.
+  - rewrite wf_arr_cons in W. destruct W as [W1 W2].
+    destruct (H x st pk true u W1 eq_refl) as (z & nl & F & _ & C).
+    { intros E. rewrite (anon_under _ (A E)). auto. }
+    destruct (IHx st pk W2 A) as (zs & Fs & Cs).
+    exists (z :: zs). split.
+    + rewrite fv_elems_cons, F, Fs. reflexivity.
+    + intros a. cbn -[conv_val]. rewrite C. fold (conv_elems (Some u)). rewrite Cs. reflexivity.
+Qed.
+
+Ltac fin_plain Plain :=
+  eexists _, _; split; [reflexivity | split; [intros _; eexists; reflexivity | exact Plain]].
+
+Lemma PL P : forall t, PLstmt P t.
+Proof.
+  induction t as [p | fs IH | u IH | n u IH] using ty_ind'; intros v st pk dec c W U H;
+    (destruct (val_eq_null v) as [-> | NN]; [apply PL_null; exact H|]).
+  - (* primitive *)
+    destruct (wf_prim_inv _ _ NN W) as (cls & tok & -> & W1 & W2 & W3 & W4).
+    rewrite fv_prim. unfold fin.
+    assert (NC : (cls =? ID_NULL) = false) by (apply N.eqb_neq; exact W1).
+    assert (CO : cast_ok cls c = true).
+    { rewrite (cast_ok_under cls c (TPrim p)); [exact W3 | exact U]. }
+    assert (Plain : forall a, conv_val a (ZImplied (APrim cls tok)) (Some c) = Some (c, VPrim cls tok, a)).
+    { intros a. cbn [conv_val]. rewrite conv_any_prim_cast, CO, NC. reflexivity. }
+    destruct dec; [|fin_plain Plain].
+    destruct pk; [rewrite decorate_known; fin_plain Plain|].
+    destruct (H eq_refl) as (_ & H2). destruct (H2 eq_refl) as (-> & _).
+    unfold decorate. cbn [orb negb andb name_of implied].
+    destruct (implied_prim p) eqn:Ip.
+    + fin_plain Plain.
+    + cbn [selfdesc implied]. rewrite Ip. cbn [orb andb fmt_type name_of].
+      eexists _, _; split; [reflexivity|]. split; [discriminate|]. intros a.
+      cbn [wrap]. rewrite conv_val_cast_implied. cbn [conv_type type_check ty_eqb].
+      rewrite N.eqb_refl, conv_any_prim_cast, W3, NC. reflexivity.
+  - (* record *)
+    destruct (wf_rec_inv _ _ NN W) as (vs & ->).
+    rewrite fv_rec. rewrite orb_false_r.
+    destruct (PL_fields P fs IH vs st pk W) as (zs & Fs & L & Cs).
+    { intros E. destruct (H E) as (A & _). exact A. }
+    rewrite Fs. unfold fin.
+    assert (Plain : forall a, conv_val a (ZImplied (ARec zs)) (Some c) = Some (c, VRec vs, a)).
+    { intros a. cbn [conv_val]. rewrite (conv_any_rec_cast a zs c fs U), L, Nat.eqb_refl, Cs. reflexivity. }
+    destruct dec; [rewrite decorate_rec_false|]; fin_plain Plain.
+  - (* array *)
+    destruct (wf_arr_inv _ _ NN W) as (vs & ->).
+    destruct vs as [|x xr].
+    + rewrite fv_arr_nil. unfold fin.
+      assert (Plain : forall a, conv_val a (ZImplied (AArr [])) (Some c) = Some (c, VArr [], a)).
+      { intros a. cbn [conv_val]. rewrite (conv_any_arr_cast a [] c u U). reflexivity. }
+      destruct dec; [|fin_plain Plain].
+      destruct pk; [rewrite decorate_known; fin_plain Plain|].
+      destruct (H eq_refl) as (_ & H2). destruct (H2 eq_refl) as (-> & A).
+      rewrite (decorate_null_unbound P st (TArr u) eq_refl eq_refl).
+      destruct (fmt_type_anon P (TArr u) st A) as (y & F & C). rewrite F.
+      eexists _, _; split; [reflexivity|]. split; [discriminate|]. intros a. cbn [wrap].
+      rewrite conv_val_cast_implied, C. unfold type_check. rewrite ty_eqb_refl.
+      rewrite (conv_any_arr_cast a [] (TArr u) u eq_refl). reflexivity.
+    + rewrite fv_arr_cons. rewrite orb_false_r.
+      destruct (PL_elems P u IH (x :: xr) st pk W) as (zs & Fs & Cs).
+      { intros E. destruct (H E) as (A & _). exact A. }
+      rewrite Fs. unfold fin.
+      assert (Plain : forall a, conv_val a (ZImplied (AArr zs)) (Some c) = Some (c, VArr (x :: xr), a)).
+      { intros a. cbn [conv_val]. rewrite (conv_any_arr_cast a zs c u U), Cs. reflexivity. }
+      destruct dec; [rewrite decorate_arr_false|]; fin_plain Plain.
+  - (* named *)
+    rewrite (fv_named P st n u v pk false dec NN). rewrite (wf_named n u v NN) in W.
+    destruct (IH v st (pk || has_name P st (TNamed n u)) false c W U) as (z & nl & F & X & C).
+    { intros E. apply orb_false_iff in E. destruct E as [E _]. destruct (H E) as (A & _).
+      split; [exact A | discriminate]. }
+    rewrite F. unfold fin. destruct dec; [|eexists _, _; split; [reflexivity | split; [intros _; apply X; reflexivity | exact C]]].
+    destruct pk; [rewrite decorate_known; eexists _, _; split; [reflexivity | split; [discriminate | exact C]]|].
+    destruct (H eq_refl) as (_ & H2). destruct (H2 eq_refl) as (_ & A). discriminate.
+Qed.
+
+(* ---- formatType is read back by convertType, typedefs included ----
+   formatType binds a name before it formats the definition (pre-order), the
+   analyzer after it converted it (post-order): [pend] are the names whose
+   binding is pending on the analyzer's side. *)
+Definition InvEx (P : persist) (pend : list name) (st : fstate) (a : astate) : Prop :=
+  (forall m T, ~ In m pend -> assoc m (tdefs st) = Some T -> assoc m a = Some T) /\
+  (persist_enabled P = true -> forall m T, ~ In m pend -> assoc m (perm st) = Some T -> assoc m a = Some T) /\
+  perm_ok P st.
+
+Lemma InvEx_nil P st a : InvEx P [] st a <-> Inv P st a.
+Proof.
+  unfold InvEx, Inv, submap. split; intros (A & B & C).
+  - split; [|split; [|exact C]].
+    + intros m T. apply A. intros [].
+    + intros E m T. apply (B E). intros [].
+  - split; [|split; [|exact C]].
+    + intros m T _. apply A.
+    + intros E m T _. apply (B E).
+Qed.
+
+Lemma perm_ok_save P st n t : perm_ok P st -> perm_ok P (save_type P st n t).
+Proof.
+  intros I3 m u. rewrite save_perm.
+  destruct (persist_enabled P && persist_match P n) eqn:PM; [|apply I3].
+  destruct (name_eqb m n) eqn:E; [|apply I3].
+  apply name_eqb_eq in E. subst m. intros _. exact PM.
+Qed.
+
+Lemma name_of_sound_ex P pend st a n u :
+  InvEx P pend st a -> ~ In n pend -> name_of P st (TNamed n u) = Some n -> assoc n a = Some (TNamed n u).
+Proof.
+  intros (I1 & I2 & _) NP H. simpl in H.
+  destruct (bound_to n (TNamed n u) (tdefs st)) eqn:B1.
+  - apply (I1 _ _ NP). apply bound_to_assoc. exact B1.
+  - destruct (persist_enabled P) eqn:EP; simpl in H; [|discriminate].
+    destruct (bound_to n (TNamed n u) (perm st)) eqn:B2; [|discriminate].
+    apply (I2 eq_refl _ _ NP). apply bound_to_assoc. exact B2.
+Qed.
+
+Definition FTstmt (P : persist) (t : ty) : Prop :=
+  forall pend st a,
+    good t -> (forall m, In m pend -> ~ In m (names_of t)) -> InvEx P pend st a ->
+    exists y st' a', fmt_type P st t = (y, st') /\ conv_type a y = Some (t, a') /\
+                     InvEx P pend st' a' /\ frame (names_of t) st st'.
+
+Lemma FT_fields P : forall fs,
+  Forall (fun nt => FTstmt P (snd nt)) fs ->
+  forall pend st a,
+    good (TRec fs) -> (forall m, In m pend -> ~ In m (names_of (TRec fs))) -> InvEx P pend st a ->
+    exists ys st' a', fmt_type_fields P fs st = (ys, st') /\ conv_type_fields ys a = Some (fs, a') /\
+                      InvEx P pend st' a' /\ frame (names_of (TRec fs)) st st'.
+Proof.
+  induction 1 as [| [n ft] fr H _ IHfr]; intros pend st a G D I.
+  - exists [], st, a. split; [reflexivity | split; [reflexivity | split; [exact I | apply frame_refl]]].
+  - rewrite good_rec in G. destruct G as [G1 G2]. simpl in H.
+    assert (D1 : forall m, In m pend -> ~ In m (names_of ft)).
+    { intros m Hm X. apply (D m Hm). rewrite names_of_rec. apply in_or_app. left. exact X. }
+    assert (D2 : forall m, In m pend -> ~ In m (names_of (TRec fr))).
+    { intros m Hm X. apply (D m Hm). rewrite names_of_rec. apply in_or_app. right. exact X. }
+    destruct (H pend st a G1 D1 I) as (y & st1 & a1 & F & C & I1 & Fr1).
+    destruct (IHfr pend st1 a1 G2 D2 I1) as (ys & st2 & a2 & Fs & Cs & I2 & Fr2).
+    exists ((n, y) :: ys), st2, a2. split; [|split; [|split]].
+    + cbn -[fmt_type]. rewrite F. fold (fmt_type_fields P). rewrite Fs. reflexivity.
+    + cbn -[conv_type]. rewrite C. fold conv_type_fields. rewrite Cs. reflexivity.
+    + exact I2.
+    + rewrite names_of_rec. eapply frame_trans; eassumption.
+Qed.
+
+Lemma FTg P : forall t, FTstmt P t.
+Proof.
+  induction t as [p | fs IH | u IH | n u IH] using ty_ind'; intros pend st a G D I.
+  - exists (YPrim p), st, a. split; [reflexivity | split; [reflexivity | split; [exact I | apply frame_refl]]].
+  - destruct (FT_fields P fs IH pend st a G D I) as (ys & st' & a' & Fs & Cs & I' & Fr).
+    exists (YRec ys), st', a'. split; [|split; [|split]]; auto.
+    + rewrite fmt_type_rec, Fs. reflexivity.
+    + rewrite conv_type_rec, Cs. reflexivity.
+  - simpl in G. destruct (IH pend st a G D I) as (y & st' & a' & F & C & I' & Fr).
+    exists (YArr y), st', a'. split; [|split; [|split]]; auto.
+    + cbn [fmt_type name_of]. rewrite F. reflexivity.
+    + cbn [conv_type]. rewrite C. reflexivity.
+  - destruct G as (NN & NI & _ & G).
+    assert (NP : ~ In n pend).
+    { intros X. apply (D n X). left. reflexivity. }
+    rewrite fmt_type_named.
+    destruct (name_of P st (TNamed n u)) as [m|] eqn:NO.
+    + destruct (name_of_named _ _ _ _ NO) as (u' & E). inversion E; subst m u'.
+      exists (YName n), st, a. split; [reflexivity|]. split; [|split; [exact I | apply frame_refl]].
+      cbn [conv_type]. rewrite (name_of_sound_ex P pend st a n u I NP NO). reflexivity.
+    + set (t := TNamed n u) in *. set (st1 := save_type P st n t).
+      assert (I1 : InvEx P (n :: pend) st1 a).
+      { destruct I as (A & B & C). split; [|split].
+        - intros m T Hm. unfold st1. rewrite save_tdefs.
+          rewrite name_eqb_neq; [apply A; intros X; apply Hm; right; exact X|].
+          intros ->. apply Hm. left. reflexivity.
+        - intros EP m T Hm. unfold st1. rewrite save_perm.
+          assert (NE : name_eqb m n = false).
+          { apply name_eqb_neq. intros ->. apply Hm. left. reflexivity. }
+          rewrite NE. destruct (persist_enabled P && persist_match P n);
+            apply (B EP); intros X; apply Hm; right; exact X.
+        - apply perm_ok_save. exact C. }
+      assert (D1 : forall m, In m (n :: pend) -> ~ In m (names_of u)).
+      { intros m [<- | Hm]; [exact NI|]. intros X. apply (D m Hm). right. exact X. }
+      destruct (IH (n :: pend) st1 a G D1 I1) as (y & st2 & a1 & F & C & I2 & Fr).
+      exists (YDef n y), st2, ((n, t) :: a1). split; [|split; [|split]].
+      * rewrite F. reflexivity.
+      * cbn [conv_type]. rewrite C, NN. reflexivity.
+      * destruct (Fr n NI) as [Ft Fp]. destruct I2 as (A & B & C2). split; [|split]; [| |exact C2].
+        -- intros m T Hm HT. rewrite assoc_cons. destruct (name_eqb m n) eqn:E.
+           ++ apply name_eqb_eq in E. subst m. rewrite Ft in HT. unfold st1 in HT.
+              rewrite save_tdefs, name_eqb_refl in HT. exact HT.
+           ++ apply (A m T); [|exact HT]. intros [X | X]; [|contradiction].
+              subst m. rewrite name_eqb_refl in E. discriminate.
+        -- intros EP m T Hm HT. rewrite assoc_cons. destruct (name_eqb m n) eqn:E.
+           ++ apply name_eqb_eq in E. subst m. rewrite Fp in HT. unfold st1 in HT.
+              rewrite save_perm, name_eqb_refl in HT.
+              destruct (persist_enabled P && persist_match P n) eqn:PM; [exact HT|].
+              destruct I as (_ & _ & PO). rewrite (PO _ _ HT) in PM. discriminate.
+           ++ apply (B EP m T); [|exact HT]. intros [X | X]; [|contradiction].
+              subst m. rewrite name_eqb_refl in E. discriminate.
+      * change (names_of t) with ([n] ++ names_of u).
+        eapply frame_trans; [apply frame_save | exact Fr].
+Qed.
+
+Lemma FT P t st a : good t -> Inv P st a ->
+  exists y st' a', fmt_type P st t = (y, st') /\ conv_type a y = Some (t, a') /\
+                   Inv P st' a' /\ frame (names_of t) st st'.
+Proof.
+  intros G I. destruct (FTg P t [] st a G) as (y & st' & a' & F & C & I' & Fr).
+  - intros m [].
+  - apply InvEx_nil. exact I.
+  - exists y, st', a'. split; [exact F | split; [exact C | split; [apply InvEx_nil; exact I' | exact Fr]]].
+Qed.
+
+(* ---- values analysed without any enclosing type: the decorators must suffice ---- *)
+Lemma implied_rec n ft fr : implied (TRec ((n, ft) :: fr)) = implied ft && implied (TRec fr).
+Proof. reflexivity. Qed.
 
 Lemma elem_type_all u ts : Forall (fun t => t = u) ts -> ts <> [] -> elem_type ts = Some u.
 Proof.
@@ -150,241 +733,441 @@ Proof.
     rewrite ty_eqb_refl. reflexivity.
 Qed.
 
-(* ---------- decorator sufficiency / round trip of one value with its decorator ---------- *)
-Definition implied_ok (pi : bool) (t : ty) : Prop := pi = true -> implied t = true.
-
-Lemma cast_ok_null c : cast_ok ID_NULL c = true.
-Proof. reflexivity. Qed.
-
-Lemma implied_field n ft fr : implied (TRec ((n, ft) :: fr)) = implied ft && implied (TRec fr).
-Proof. reflexivity. Qed.
-
-Ltac dec_null A F :=
-  cbn [fv]; unfold decorate; cbn [ty_eqb];
-  rewrite (anon_name_of _ _ _ A);
-  repeat (rewrite ?andb_false_r, ?andb_true_r, ?orb_false_r; cbn [negb andb orb]);
-  rewrite F; reflexivity.
-
-Theorem fv_roundtrip_anon P : forall t v st a pi,
-  anon t -> wf t v -> implied_ok pi t ->
-  exists z, fv P st t v false pi true = (z, st) /\ conv_val a z None = Some (t, v, a).
+Lemma fv_dec P st t v pk pi : v <> VNull ->
+  fv P st t v pk pi true = fin P t pk true (fv P st t v pk pi false).
 Proof.
-  induction t as [p | fs IH | u IH | n u IH] using ty_ind'; intros v st a pi A W I.
+  intros NN. destruct t as [p | fs | u | n u].
+  - destruct v; [congruence | reflexivity ..].
+  - destruct v as [| cls tok | vs | vs]; [congruence | reflexivity | | reflexivity].
+    rewrite !fv_rec. unfold fin.
+    destruct (fv_fields P (pk || false) pi fs vs st) as [zs st1]. reflexivity.
+  - destruct v as [| cls tok | vs | vs]; [congruence | reflexivity | reflexivity |].
+    destruct vs as [|x xr]; [reflexivity|].
+    rewrite !fv_arr_cons. unfold fin.
+    destruct (fv_elems P (pk || false) pi u (x :: xr) st) as [zs st1]. reflexivity.
+  - rewrite !(fv_named P st n u v pk pi _ NN). unfold fin.
+    destruct (fv P st u v (pk || has_name P st (TNamed n u)) pi false) as [[z nl] st1]. reflexivity.
+Qed.
+
+Definition Ustmt (P : persist) (t : ty) : Prop :=
+  forall v st a pi, wf t v -> good t -> implied_ok pi t -> Inv P st a ->
+    exists z nl st' a', fv P st t v false pi true = (z, nl, st') /\
+                        conv_val a z None = Some (t, v, a') /\ Inv P st' a' /\
+                        frame (names_of t) st st'.
+
+Definition U'stmt (P : persist) (t : ty) : Prop :=
+  is_named t = false ->
+  forall v st a pi, v <> VNull -> wf t v -> good t -> implied_ok pi t -> Inv P st a ->
+    exists x nl st', fv P st t v false pi false = (ZImplied x, nl, st') /\
+                     frame (names_of t) st st' /\
+                     (nl = true -> st' = st /\ v = VArr [] /\ x = AArr [] /\ exists u, t = TArr u) /\
+                     (nl = false -> selfdesc t = true ->
+                      exists a', conv_any a x None = Some (t, v, a') /\ Inv P st' a').
+
+Lemma decorate_unbound_cond P st t null :
+  ty_eqb t (TPrim ID_NULL) = false -> implied t = false \/ null = true ->
+  decorate P st t false null =
+  match name_of P st t with
+  | Some n => (DCast (YName n), st)
+  | None =>
+    if selfdesc t && negb null then
+      match t with
+      | TNamed n _ => (DDef n, save_type P st n t)
+      | _ => (DNone, st)
+      end
+    else let '(y, st') := fmt_type P st t in (DCast y, st')
+  end.
+Proof.
+  intros E H. unfold decorate. rewrite E. cbn [orb negb].
+  replace (negb (null && true) && implied t) with false; [reflexivity|].
+  destruct H as [-> | ->]; [rewrite andb_false_r | rewrite andb_true_r]; reflexivity.
+Qed.
+
+Lemma U_null P t st a pi : good t -> Inv P st a ->
+  exists z nl st' a', fv P st t VNull false pi true = (z, nl, st') /\
+                      conv_val a z None = Some (t, VNull, a') /\ Inv P st' a' /\
+                      frame (names_of t) st st'.
+Proof.
+  intros G I. rewrite fv_null.
+  replace (if pi then false else false) with false by (destruct pi; reflexivity).
+  destruct (ty_eqb t (TPrim ID_NULL)) eqn:E.
+  - apply ty_eqb_prim in E. subst t. rewrite decorate_null_nulltype.
+    exists znull, true, st, a. split; [reflexivity|]. split; [reflexivity|]. split; [exact I | apply frame_refl].
+  - rewrite (decorate_unbound_cond P st t true E (or_intror eq_refl)).
+    destruct (name_of P st t) as [n|] eqn:NO.
+    + exists (ZCast znull (YName n)), true, st, a. split; [reflexivity|].
+      split; [|split; [exact I | apply frame_refl]].
+      unfold znull. rewrite conv_val_cast_implied. cbn [conv_type].
+      rewrite (name_of_sound P st a t n I NO). reflexivity.
+    + rewrite andb_false_r.
+      destruct (FT P t st a G I) as (y & st' & a' & F & C & I' & Fr). rewrite F.
+      exists (ZCast znull y), true, st', a'. split; [reflexivity|].
+      split; [|split; [exact I' | exact Fr]].
+      unfold znull. rewrite conv_val_cast_implied, C. reflexivity.
+Qed.
+
+Lemma U_fields P : forall fs,
+  Forall (fun nt => Ustmt P (snd nt) /\ U'stmt P (snd nt)) fs ->
+  forall vs st a pi, wf (TRec fs) (VRec vs) -> good (TRec fs) -> implied_ok pi (TRec fs) -> Inv P st a ->
+  exists zs st' a', fv_fields P false pi fs vs st = (zs, st') /\
+                    conv_fields_infer zs a = Some (fs, vs, a') /\ Inv P st' a' /\
+                    frame (names_of (TRec fs)) st st'.
+Proof.
+  induction 1 as [| [n ft] fr [H _] _ IHfr]; intros vs st a pi W G IO I.
+  - destruct vs; [|simpl in W; contradiction].
+    exists [], st, a. split; [reflexivity | split; [reflexivity | split; [exact I | apply frame_refl]]].
+  - destruct vs as [|x xr]; [simpl in W; contradiction|].
+    rewrite wf_rec_cons in W. destruct W as [W1 W2].
+    rewrite good_rec in G. destruct G as [G1 G2]. simpl in H.
+    assert (IO1 : implied_ok pi ft).
+    { intros E. specialize (IO E). rewrite implied_rec in IO. apply andb_true_iff in IO. tauto. }
+    assert (IO2 : implied_ok pi (TRec fr)).
+    { intros E. specialize (IO E). rewrite implied_rec in IO. apply andb_true_iff in IO. tauto. }
+    destruct (H x st a pi W1 G1 IO1 I) as (z & nl & st1 & a1 & F & C & I1 & Fr1).
+    destruct (IHfr xr st1 a1 pi W2 G2 IO2 I1) as (zs & st2 & a2 & Fs & Cs & I2 & Fr2).
+    exists ((n, z) :: zs), st2, a2. split; [|split; [|split]].
+    + rewrite fv_fields_cons, F, Fs. reflexivity.
+    + cbn -[conv_val]. rewrite C. fold conv_fields_infer. rewrite Cs. reflexivity.
+    + exact I2.
+    + rewrite names_of_rec. eapply frame_trans; eassumption.
+Qed.
+
+Lemma U_elems P u : Ustmt P u ->
+  forall vs st a pi, wf (TArr u) (VArr vs) -> good u -> implied_ok pi u -> Inv P st a ->
+  exists zs st' a', fv_elems P false pi u vs st = (zs, st') /\
+                    conv_elems None zs a = Some (map (fun _ => u) vs, vs, a') /\ Inv P st' a' /\
+                    frame (names_of u) st st'.
+Proof.
+  intros H. induction vs as [|x xr IHx]; intros st a pi W G IO I.
+  - exists [], st, a. split; [reflexivity | split; [reflexivity | split; [exact I | apply frame_refl]]].
+  - rewrite wf_arr_cons in W. destruct W as [W1 W2].
+    destruct (H x st a pi W1 G IO I) as (z & nl & st1 & a1 & F & C & I1 & Fr1).
+    destruct (IHx st1 a1 pi W2 G IO I1) as (zs & st2 & a2 & Fs & Cs & I2 & Fr2).
+    exists (z :: zs), st2, a2. split; [|split; [|split]].
+    + rewrite fv_elems_cons, F, Fs. reflexivity.
+    + cbn -[conv_val]. rewrite C. fold (conv_elems None). rewrite Cs. reflexivity.
+    + exact I2.
+    + apply (frame_weaken (names_of u ++ names_of u)); [|eapply frame_trans; eassumption].
+      intros m Hm. apply in_app_or in Hm. tauto.
+Qed.
+
+Lemma selfdesc_rec fs : selfdesc (TRec fs) = true.
+Proof. cbn [selfdesc]. apply orb_true_r. Qed.
+
+Lemma selfdesc_arr u : selfdesc (TArr u) = true.
+Proof. cbn [selfdesc]. apply orb_true_r. Qed.
+
+Lemma selfdesc_named_nonnamed n u : is_named u = false -> selfdesc (TNamed n u) = selfdesc u.
+Proof. destruct u; intros H; try discriminate; reflexivity. Qed.
+
+Lemma selfdesc_named_named n m w : selfdesc (TNamed n (TNamed m w)) = false.
+Proof. reflexivity. Qed.
+
+Lemma selfdesc_named_false n u :
+  selfdesc (TNamed n u) = false -> is_named u = false -> exists p, u = TPrim p.
+Proof.
+  intros H N. rewrite (selfdesc_named_nonnamed n u N) in H.
+  destruct u as [p | fs | w | m w]; eauto.
+  - rewrite selfdesc_rec in H. discriminate.
+  - rewrite selfdesc_arr in H. discriminate.
+  - discriminate.
+Qed.
+
+Lemma selfdesc_named_true n u :
+  selfdesc (TNamed n u) = true -> is_named u = false /\ selfdesc u = true.
+Proof.
+  destruct u as [p | fs | w | m w]; intros H.
+  - split; [reflexivity | exact H].
+  - split; [reflexivity | apply selfdesc_rec].
+  - split; [reflexivity | apply selfdesc_arr].
+  - discriminate.
+Qed.
+
+Lemma UL P : forall t, Ustmt P t /\ U'stmt P t.
+Proof.
+  induction t as [p | fs IH | u IH | n u IH] using ty_ind'.
   - (* primitive *)
-    destruct v as [| cls tok | vs | vs]; try (simpl in W; contradiction).
-    + (* null *)
-      simpl. unfold decorate. simpl.
-      destruct (p =? ID_NULL) eqn:E.
-      * apply N.eqb_eq in E. subst p. destruct pi; eexists; split; reflexivity.
-      * unfold implied. destruct (implied_prim p); destruct pi; simpl; eexists; (split; [reflexivity|]); simpl; reflexivity.
-    + simpl in W. destruct W as (W1 & W2 & W3 & W4).
-      simpl. unfold decorate. simpl.
-      destruct (implied_prim p) eqn:Ip.
-      * rewrite (W4 eq_refl). simpl. eexists. split; [reflexivity|]. simpl.
-        apply N.eqb_neq in W2. rewrite W2. reflexivity.
-      * simpl. eexists. split; [reflexivity|]. simpl. rewrite W3.
-        apply N.eqb_neq in W1. rewrite W1. reflexivity.
+    assert (U' : U'stmt P (TPrim p)).
+    { intros _ v st a pi NN W G IO I.
+      destruct (wf_prim_inv _ _ NN W) as (cls & tok & -> & W1 & W2 & W3 & W4).
+      rewrite fv_prim. unfold fin.
+      exists (APrim cls tok), false, st. split; [reflexivity|]. split; [apply frame_refl|].
+      split; [discriminate|]. intros _ SD.
+      cbn [selfdesc implied] in SD. rewrite orb_false_r in SD. rewrite (W4 SD).
+      exists a. split; [|exact I]. cbn [conv_any].
+      replace (p =? ID_NULL) with false by (symmetry; apply N.eqb_neq; exact W2).
+      rewrite <- (W4 SD). reflexivity. }
+    split; [|exact U'].
+    intros v st a pi W G IO I.
+    destruct (val_eq_null v) as [-> | NN]; [apply U_null; assumption|].
+    destruct (wf_prim_inv _ _ NN W) as (cls & tok & -> & W1 & W2 & W3 & W4).
+    rewrite (fv_dec P st (TPrim p) _ false pi NN), fv_prim. unfold fin.
+    assert (NC : (cls =? ID_NULL) = false) by (apply N.eqb_neq; exact W1).
+    unfold decorate. cbn [orb negb andb name_of implied ty_eqb].
+    destruct (implied_prim p) eqn:Ip.
+    + replace (p =? ID_NULL) with false by (symmetry; apply N.eqb_neq; exact W2).
+      cbn [negb andb].
+      exists (ZImplied (APrim cls tok)), false, st, a. split; [reflexivity|].
+      split; [|split; [exact I | apply frame_refl]].
+      cbn [conv_val conv_any]. rewrite NC, (W4 eq_refl). reflexivity.
+    + cbn [selfdesc implied]. rewrite Ip. cbn [orb andb fmt_type name_of].
+      exists (ZCast (ZImplied (APrim cls tok)) (YPrim p)), false, st, a. split; [reflexivity|].
+      split; [|split; [exact I | apply frame_refl]].
+      rewrite conv_val_cast_implied. cbn [conv_type type_check].
+      rewrite conv_any_prim_cast, W3, NC. reflexivity.
   - (* record *)
-    destruct v as [| cls tok | vs | vs]; try (simpl in W; contradiction).
-    + (* null: a cast with the whole type *)
-      destruct (fmt_type_anon P (TRec fs) st a A) as (y & F & C).
-      exists (ZCast znull y). split.
-      * destruct pi; dec_null A F.
-      * cbn [conv_val znull]. rewrite C. cbn [type_check conv_val conv_any].
-        rewrite cast_ok_null. reflexivity.
-    + (* a record value: fields are decorated as needed, the record itself never *)
-      assert (L : forall st a, exists zs,
-        (fix go (fs : list (name * ty)) (vs : list val) (st : fstate)
-           : list (name * zval) * fstate :=
-           match fs, vs with
-           | (n, ft) :: fr, x :: xr =>
-             let '(z, st1) := fv P st ft x (false || false) pi true in
-             let '(zs, st2) := go fr xr st1 in ((n, z) :: zs, st2)
-           | _, _ => ([], st)
-           end) fs vs st = (zs, st) /\
-        (fix go (fs : list (name * zval)) (a : astate)
-           : option (list (name * ty) * list val * astate) :=
-           match fs with
-           | [] => Some ([], [], a)
-           | (n, z) :: fr =>
-             match conv_val a z None with
-             | Some (t, v, a1) =>
-               match go fr a1 with
-               | Some (ts, vs, a2) => Some ((n, t) :: ts, v :: vs, a2)
-               | None => None
-               end
-             | None => None
-             end
-           end) zs a = Some (fs, vs, a)).
-      { clear st a. revert vs W I. simpl in A. induction IH as [| [n ft] fr H _ IHfr]; intros vs W I st a.
-        - destruct vs; [|simpl in W; contradiction]. exists []. split; reflexivity.
-        - destruct vs as [|x xr]; [simpl in W; contradiction|].
-          simpl in W. destruct W as [W1 W2]. destruct A as [A1 A2]. simpl in H.
-          assert (I1 : implied_ok pi ft).
-          { intros E. specialize (I E). rewrite implied_field in I. apply andb_true_iff in I. tauto. }
-          assert (I2 : implied_ok pi (TRec fr)).
-          { intros E. specialize (I E). rewrite implied_field in I. apply andb_true_iff in I. tauto. }
-          destruct (H x st a pi A1 W1 I1) as (z & F & C).
-          destruct (IHfr A2 xr W2 I2 st a) as (zs & Fs & Cs).
-          exists ((n, z) :: zs). split.
-          + cbn -[fv conv_val conv_any] in *. rewrite F, Fs. reflexivity.
-          + cbn -[fv conv_val conv_any] in *. rewrite C, Cs. reflexivity. }
-      destruct (L st a) as (zs & Fs & Cs).
-      exists (ZImplied (ARec zs)). split.
-      * cbn [fv]. rewrite (anon_has_name P st _ A). rewrite Fs.
-        unfold decorate. cbn [negb andb orb].
-        rewrite (anon_name_of P st _ A).
-        destruct (implied (TRec fs)); cbn [negb andb orb wrap selfdesc]; try reflexivity.
-        rewrite orb_true_r. reflexivity.
-      * cbn [conv_val conv_any]. rewrite Cs. reflexivity.
+    assert (U' : U'stmt P (TRec fs)).
+    { intros _ v st a pi NN W G IO I.
+      destruct (wf_rec_inv _ _ NN W) as (vs & ->).
+      rewrite fv_rec. cbn [orb].
+      destruct (U_fields P fs IH vs st a pi W G IO I) as (zs & st' & a' & Fs & Cs & I' & Fr).
+      rewrite Fs. unfold fin.
+      exists (ARec zs), false, st'. split; [reflexivity|]. split; [exact Fr|].
+      split; [discriminate|]. intros _ _. exists a'. split; [|exact I'].
+      rewrite conv_any_rec_infer, Cs. reflexivity. }
+    split; [|exact U'].
+    intros v st a pi W G IO I.
+    destruct (val_eq_null v) as [-> | NN]; [apply U_null; assumption|].
+    rewrite (fv_dec P st (TRec fs) v false pi NN).
+    destruct (U' eq_refl v st a pi NN W G IO I) as (x & nl & st' & F & Fr & N1 & N2).
+    rewrite F. unfold fin. destruct nl.
+    + destruct (N1 eq_refl) as (_ & _ & _ & (w & E)). discriminate.
+    + rewrite decorate_rec_false.
+      destruct (N2 eq_refl (selfdesc_rec fs)) as (a' & C & I').
+      exists (ZImplied x), false, st', a'. split; [reflexivity|]. split; [exact C|]. split; assumption.
   - (* array *)
-    destruct v as [| cls tok | vs | vs]; try (simpl in W; contradiction).
-    + destruct (fmt_type_anon P (TArr u) st a A) as (y & F & C).
-      exists (ZCast znull y). split.
-      * destruct pi; dec_null A F.
-      * cbn [conv_val znull]. rewrite C. cbn [type_check conv_val conv_any].
-        rewrite cast_ok_null. reflexivity.
-    + destruct vs as [|x0 xr0].
-      * (* the empty array inside a value is decorated with its full type *)
-        destruct (fmt_type_anon P (TArr u) st a A) as (y & F & C).
-        exists (ZCast (ZImplied (AArr [])) y). split.
-        -- dec_null A F.
-        -- cbn [conv_val]. rewrite C. cbn [type_check conv_val conv_any under]. reflexivity.
-      * assert (I' : implied_ok pi u) by exact I.
-        simpl in A.
-        assert (L : forall vs st a,
-          (fix go (vs : list val) : Prop :=
-             match vs with [] => True | x :: xr => wf u x /\ go xr end) vs ->
-          exists zs,
-          (fix go (vs : list val) (st : fstate) : list zval * fstate :=
-             match vs with
-             | [] => ([], st)
-             | x :: xr =>
-               let '(z, st1) := fv P st u x (false || false) pi true in
-               let '(zs, st2) := go xr st1 in (z :: zs, st2)
-             end) vs st = (zs, st) /\
-          (fix go (es : list zval) (a : astate) : option (list ty * list val * astate) :=
-             match es with
-             | [] => Some ([], [], a)
-             | z :: er =>
-               match conv_val a z None with
-               | Some (t, v, a1) =>
-                 match go er a1 with
-                 | Some (ts, vs, a2) => Some (t :: ts, v :: vs, a2)
-                 | None => None
-                 end
-               | None => None
-               end
-             end) zs a = Some (map (fun _ => u) vs, vs, a)).
-        { clear st a. induction vs as [|x xr IHx]; intros st a Wv.
-          - exists []. split; reflexivity.
-          - destruct Wv as [W1 W2].
-            destruct (IH x st a pi A W1 I') as (z & F & C).
-            destruct (IHx st a W2) as (zs & Fs & Cs).
-            exists (z :: zs). split.
-            + cbn -[fv conv_val conv_any] in *. rewrite F, Fs. reflexivity.
-            + cbn -[fv conv_val conv_any] in *. rewrite C, Cs. reflexivity. }
-        simpl in W.
-        destruct (L (x0 :: xr0) st a W) as (zs & Fs & Cs).
-        exists (ZImplied (AArr zs)). split.
-        -- cbn [fv]. rewrite (anon_has_name P st (TArr u) A). rewrite Fs.
-           unfold decorate. cbn [negb andb orb].
-           rewrite (anon_name_of P st (TArr u) A).
-           destruct (implied (TArr u)); cbn [negb andb orb wrap selfdesc]; try reflexivity.
-           rewrite orb_true_r. reflexivity.
-        -- cbn [conv_val conv_any]. rewrite Cs.
-           rewrite (elem_type_all u); [reflexivity | | discriminate].
-           apply Forall_forall. intros t Hin. apply in_map_iff in Hin. destruct Hin as (? & E & _). auto.
-  - destruct A.
+    destruct IH as [IHU _].
+    assert (U' : U'stmt P (TArr u)).
+    { intros _ v st a pi NN W G IO I.
+      destruct (wf_arr_inv _ _ NN W) as (vs & ->).
+      destruct vs as [|x xr].
+      - rewrite fv_arr_nil. unfold fin.
+        exists (AArr []), true, st. split; [reflexivity|]. split; [apply frame_refl|].
+        split; [|discriminate]. intros _. repeat split; eauto.
+      - rewrite fv_arr_cons. cbn [orb].
+        destruct (U_elems P u IHU (x :: xr) st a pi W G IO I) as (zs & st' & a' & Fs & Cs & I' & Fr).
+        rewrite Fs. unfold fin.
+        exists (AArr zs), false, st'. split; [reflexivity|]. split; [exact Fr|].
+        split; [discriminate|]. intros _ _. exists a'. split; [|exact I'].
+        rewrite conv_any_arr_infer, Cs.
+        rewrite (elem_type_all u); [reflexivity | | simpl; discriminate].
+        apply Forall_forall. intros t Hin. apply in_map_iff in Hin. destruct Hin as (? & E & _). auto. }
+    split; [|exact U'].
+    intros v st a pi W G IO I.
+    destruct (val_eq_null v) as [-> | NN]; [apply U_null; assumption|].
+    rewrite (fv_dec P st (TArr u) v false pi NN).
+    destruct (U' eq_refl v st a pi NN W G IO I) as (x & nl & st' & F & Fr & N1 & N2).
+    rewrite F. unfold fin. destruct nl.
+    + destruct (N1 eq_refl) as (-> & -> & -> & _).
+      rewrite (decorate_null_unbound P st (TArr u) eq_refl eq_refl).
+      destruct (FT P (TArr u) st a G I) as (y & st' & a' & Ft & C & I' & Fr').
+      rewrite Ft. exists (ZCast (ZImplied (AArr [])) y), true, st', a'. split; [reflexivity|].
+      split; [|split; assumption].
+      cbn [wrap]. rewrite conv_val_cast_implied, C. cbn [type_check].
+      rewrite (conv_any_arr_cast a' [] (TArr u) u eq_refl). reflexivity.
+    + rewrite decorate_arr_false.
+      destruct (N2 eq_refl (selfdesc_arr u)) as (a' & C & I').
+      exists (ZImplied x), false, st', a'. split; [reflexivity|]. split; [exact C|]. split; assumption.
+  - (* named *)
+    destruct IH as [IHU IHU'].
+    split; [|intros H; discriminate].
+    intros v st a pi W G IO I.
+    destruct (val_eq_null v) as [-> | NN]; [apply U_null; assumption|].
+    assert (PI : pi = false).
+    { destruct pi; [|reflexivity]. specialize (IO eq_refl). discriminate. }
+    subst pi.
+    destruct G as (NN' & NI & NB & G).
+    rewrite (wf_named n u v NN) in W.
+    rewrite (fv_named P st n u v false false true NN). cbn [orb].
+    set (t := TNamed n u) in *.
+    assert (TE : ty_eqb t (TPrim ID_NULL) = false) by reflexivity.
+    unfold has_name. destruct (name_of P st t) as [m|] eqn:NO.
+    + (* the name is bound to this very type: the value is written bare and (name) follows *)
+      destruct (name_of_named _ _ _ _ NO) as (u' & E). inversion E; subst m u'. cbn [is_some].
+      destruct (PL P u v st true false t W eq_refl) as (z & nl & F & X & C); [discriminate|].
+      destruct (X eq_refl) as (x & ->).
+      rewrite F. unfold fin.
+      rewrite (decorate_unbound_cond P st t nl TE (or_introl eq_refl)), NO.
+      exists (ZCast (ZImplied x) (YName n)), nl, st, a. split; [reflexivity|].
+      split; [|split; [exact I | apply frame_refl]].
+      rewrite conv_val_cast_implied. cbn [conv_type].
+      rewrite (name_of_sound P st a t n I NO). cbn [type_check].
+      exact (C a).
+    + cbn [is_some].
+      destruct (selfdesc t) eqn:SD.
+      * (* self-describing: the value, decorated inside as needed, then (=name) *)
+        destruct (selfdesc_named_true n u SD) as (NNu & SDu).
+        destruct (IHU' NNu v st a false NN W G (fun e => False_ind _ (Bool.diff_false_true e)) I)
+          as (x & nl & st1 & F & Fr & N1 & N2).
+        rewrite F. unfold fin.
+        assert (NO1 : name_of P st1 t = None).
+        { unfold t. rewrite (name_of_frame P (names_of u) st st1 n u Fr NI). exact NO. }
+        rewrite (decorate_unbound_cond P st1 t nl TE (or_introl eq_refl)), NO1, SD.
+        destruct nl.
+        -- destruct (N1 eq_refl) as (-> & -> & -> & (w & Eu)).
+           cbn [negb andb].
+           destruct (FT P t st a (conj NN' (conj NI (conj NB G))) I) as (y & st' & a' & Ft & C & I' & Fr').
+           rewrite Ft. exists (ZCast (ZImplied (AArr [])) y), true, st', a'. split; [reflexivity|].
+           split; [|split; assumption].
+           cbn [wrap]. rewrite conv_val_cast_implied, C. cbn [type_check].
+           rewrite (conv_any_arr_cast a' [] t w); [reflexivity|]. unfold t. cbn [under]. rewrite Eu. reflexivity.
+        -- cbn [negb andb]. unfold t at 1.
+           destruct (N2 eq_refl SDu) as (a1 & C & I1).
+           exists (ZDef x n), false, (save_type P st1 n t), ((n, t) :: a1). split; [reflexivity|].
+           split; [|split].
+           ++ rewrite conv_val_def, C. cbn [restates]. rewrite NN'. reflexivity.
+           ++ apply Inv_save. exact I1.
+           ++ apply (frame_weaken (names_of u ++ [n])).
+              { intros m Hm. apply in_app_or in Hm. destruct Hm as [Hm | [<- | []]]; [right; exact Hm | left; reflexivity]. }
+              eapply frame_trans; [exact Fr | apply frame_save].
+      * (* not self-describing: the bare value, then the full type *)
+        assert (AU : names_of (under u) = []).
+        { destruct (is_named u) eqn:Nu; [apply NB; reflexivity|].
+          destruct (selfdesc_named_false n u SD Nu) as (p & ->). reflexivity. }
+        destruct (PL P u v st false false t W eq_refl) as (z & nl & F & X & C).
+        { intros _. split; [exact AU | discriminate]. }
+        destruct (X eq_refl) as (x & ->).
+        rewrite F. unfold fin.
+        rewrite (decorate_unbound_cond P st t nl TE (or_introl eq_refl)), NO, SD. cbn [andb].
+        destruct (FT P t st a (conj NN' (conj NI (conj NB G))) I) as (y & st' & a' & Ft & Cy & I' & Fr').
+        rewrite Ft. exists (ZCast (ZImplied x) y), nl, st', a'. split; [reflexivity|].
+        split; [|split; assumption].
+        rewrite conv_val_cast_implied, Cy. cbn [type_check]. exact (C a').
 Qed.
 
-(* a value at the top of a text: everything but the empty container *)
-Definition top_ok (t : ty) (v : val) : Prop :=
-  match t, v with TArr _, VArr [] => False | _, _ => True end.
-
-Theorem top_roundtrip_anon P : forall t v st a,
-  anon t -> wf t v -> top_ok t v ->
-  exists z, fmt_top P st t v = (z, st) /\ conv_val a z None = Some (t, v, a).
+(* ---- a value at the top of a text; sequences ---- *)
+Lemma fv_top_known P st t v pi :
+  fv P st t v (has_name P st t) pi false = fv P st t v false pi false.
 Proof.
-  intros t v st a A W T.
-  destruct (fv_roundtrip_anon P t v st a (implied t) A W (fun e => e)) as (z & F & C).
-  exists z. split; [|exact C].
-  unfold fmt_top. rewrite (anon_has_name P st t A).
-  (* fv with dec=true is fv with dec=false followed by decorate with the same flags,
-     except for the empty array where the top level passes null=false *)
-  destruct t as [p | fs | u | n u]; [ | | | destruct A];
-    destruct v as [| cls tok | vs | vs]; try (simpl in W; contradiction);
-    cbn [fv is_null] in F |- *.
-  - destruct (implied (TPrim p)); exact F.
-  - exact F.
-  - destruct (implied (TRec fs)); exact F.
-  - rewrite (anon_has_name P st (TRec fs) A) in *.
-    revert F.
-    match goal with |- context [let '(zs, st1) := ?g in (ZImplied (ARec zs), false, st1)] =>
-      destruct g as [zs st1] end.
-    intros F. exact F.
-  - destruct (implied (TArr u)); exact F.
-  - destruct vs as [|x xr]; [simpl in T; contradiction|].
-    rewrite (anon_has_name P st (TArr u) A) in *.
-    revert F.
-    match goal with |- context [let '(zs, st1) := ?g in (ZImplied (AArr zs), false, st1)] =>
-      destruct g as [zs st1] end.
-    intros F. exact F.
+  destruct (val_eq_null v) as [-> | NN]; [rewrite !fv_null; reflexivity|].
+  destruct t as [p | fs | u | n u].
+  - reflexivity.
+  - reflexivity.
+  - reflexivity.
+  - rewrite !(fv_named P st n u v _ pi false NN). rewrite orb_diag. reflexivity.
 Qed.
 
-(* streams of anonymous values: any typedef scope, any persist setting *)
-Theorem stream_roundtrip_anon P reset : forall l st a,
-  Forall (fun tv => anon (fst tv) /\ wf (fst tv) (snd tv) /\ top_ok (fst tv) (snd tv)) l ->
+Theorem top_roundtrip P : forall t v st a,
+  wf t v -> good t -> Inv P st a ->
+  exists z st' a', fmt_top P st t v = (z, st') /\ conv_val a z None = Some (t, v, a') /\ Inv P st' a'.
+Proof.
+  intros t v st a W G I.
+  destruct (UL P t) as [U _].
+  destruct (U v st a (implied t) W G (fun e => e) I) as (z & nl & st' & a' & F & C & I' & _).
+  unfold fmt_top. rewrite fv_top_known.
+  destruct (val_eq_null v) as [-> | NN].
+  - rewrite fv_null in *. cbn [is_null negb andb].
+    replace (if implied t then false else false) with false in F by (destruct (implied t); reflexivity).
+    destruct (decorate P st t false true) as [d st2]. inversion F; subst.
+    exists (wrap znull d), st', a'. auto.
+  - rewrite (fv_dec P st t v false (implied t) NN) in F. unfold fin in F.
+    destruct (fv P st t v false (implied t) false) as [[z0 nl0] st1] eqn:F0.
+    replace (negb (is_null v)) with true by (destruct v; [congruence | reflexivity ..]).
+    cbn [andb].
+    destruct (empty_implies t) eqn:EI; [|destruct (decorate P st1 t false nl0) as [d st2]; inversion F; subst; eexists _, _, _; split; [reflexivity | split; eassumption]].
+    (* the container of null: written bare, read as the container of null *)
+    destruct t as [p | fs | u | n u]; try discriminate. cbn [empty_implies] in EI.
+    apply ty_eqb_prim in EI. subst u.
+    destruct nl0.
+    + (* empty *)
+      destruct (wf_arr_inv _ _ NN W) as (vs & ->).
+      destruct vs as [|x xr]; [|rewrite fv_arr_cons in F0; unfold fin in F0;
+        destruct (fv_elems P (false || false) (implied (TArr (TPrim ID_NULL))) (TPrim ID_NULL) (x :: xr) st); discriminate].
+      rewrite fv_arr_nil in F0. unfold fin in F0. inversion F0; subst.
+      rewrite decorate_arr_false.
+      exists (ZImplied (AArr [])), st1, a. split; [reflexivity|]. split; [reflexivity | exact I].
+    + destruct (decorate P st1 (TArr (TPrim ID_NULL)) false false) as [d st2]. inversion F; subst. eexists _, _, _; split; [reflexivity | split; eassumption].
+Qed.
+
+Theorem stream_roundtrip P reset : forall l st a,
+  Forall (fun tv => wf (fst tv) (snd tv) /\ good (fst tv)) l -> Inv P st a ->
   conv_stream a (fmt_stream P reset st l) = map Some l.
 Proof.
-  induction l as [| [t v] r IH]; intros st a H; [reflexivity|].
-  inversion H as [| ? ? (A & W & T) Hr]; subst. simpl in A, W, T.
-  simpl.
-  destruct (top_roundtrip_anon P t v (if reset then mkF [] (perm st) else st) a A W T) as (z & F & C).
-  rewrite F. simpl. rewrite C. f_equal. apply IH. exact Hr.
+  induction l as [| [t v] r IH]; intros st a H I; [reflexivity|].
+  inversion H as [| ? ? (W & G) Hr]; subst. simpl in W, G.
+  assert (I0 : Inv P (if reset then mkF [] (perm st) else st) a).
+  { destruct reset; [|exact I]. destruct I as (_ & I2 & I3). split; [|split].
+    - intros n u X. discriminate.
+    - exact I2.
+    - exact I3. }
+  destruct (top_roundtrip P t v _ a W G I0) as (z & st' & a' & F & C & I').
+  cbn [fmt_stream]. rewrite F. cbn [conv_stream]. rewrite C. cbn [map]. f_equal.
+  apply IH; assumption.
 Qed.
 
-(* ---------- witnesses: where the faithful model does not round-trip ---------- *)
+Lemma Inv0 P : Inv P fstate0 [].
+Proof.
+  split; [|split].
+  - intros n t X. discriminate.
+  - intros _ n t X. discriminate.
+  - intros n t X. discriminate.
+Qed.
+
+(* ---- statements used by Props/C02.v ---- *)
+Theorem decorator_sufficient P : forall t v st a pi,
+  wf t v -> good t -> implied_ok pi t -> Inv P st a ->
+  exists z nl st' a', fv P st t v false pi true = (z, nl, st') /\
+                      conv_val a z None = Some (t, v, a') /\ Inv P st' a' /\
+                      frame (names_of t) st st'.
+Proof. intros t. exact (proj1 (UL P t)). Qed.
+
+Theorem known_type_sufficient P : forall t v st c,
+  wf t v -> under c = under t ->
+  exists z nl, fv P st t v true false true = (z, nl, st) /\
+               forall a, conv_val a z (Some c) = Some (c, v, a).
+Proof.
+  intros t v st c W U.
+  destruct (PL P t v st true true c W U) as (z & nl & F & _ & C); [discriminate|].
+  exists z, nl. split; assumption.
+Qed.
+
+Theorem format_type_roundtrip P : forall t st a,
+  good t -> Inv P st a ->
+  exists y st' a', fmt_type P st t = (y, st') /\ conv_type a y = Some (t, a') /\
+                   Inv P st' a' /\ frame (names_of t) st st'.
+Proof. intros. apply FT; assumption. Qed.
+
+Theorem stream_roundtrip0 P reset : forall l,
+  Forall (fun tv => wf (fst tv) (snd tv) /\ good (fst tv)) l ->
+  conv_stream [] (fmt_stream P reset fstate0 l) = map Some l.
+Proof. intros l H. apply stream_roundtrip; [exact H | apply Inv0]. Qed.
+
+(* ---- witnesses: where the faithful model still does not round-trip ---- *)
 Definition u8 : ty := TPrim 0.
 Definition tok1 : val := VPrim 9 [49].
 Definition nm (s : string) : name := s2l s.
 
-(* [] of type [uint8] at the top of a text is written "[]" and read as [null] *)
-Theorem toplevel_empty_array_refuted :
-  exists t v, anon t /\ wf t v /\
-    conv_val [] (fst (fmt_top PNone fstate0 t v)) None <> Some (t, v, []).
+(* outer=bar={f:foo={a:uint8}}: the trailing decorator (outer=bar={f:foo})
+   refers to foo, which is first defined inside the value (F-C02-8) *)
+Theorem named_of_named_inner_named_refuted :
+  exists t v, wf t v /\ conv_val [] (fst (fmt_top PNone fstate0 t v)) None = None.
 Proof.
-  exists (TArr u8), (VArr []). split; [exact I|]. split; [exact I|].
-  vm_compute. discriminate.
+  exists (TNamed (nm "outer") (TNamed (nm "bar") (TRec [(nm "f", TNamed (nm "foo") (TRec [(nm "a", u8)]))]))),
+         (VRec [VRec [tok1]]).
+  split; [vm_compute; intuition discriminate | vm_compute; reflexivity].
 Qed.
 
-(* a name bound to a second type: {b:1} of foo={b:uint8} after foo={a:uint8} *)
-Theorem redefined_name_refuted :
+(* a name nested in a type of the same name: formatType binds the outer name
+   before it writes the definition, convertType after it read it, so the two
+   sides end with different bindings of the name (covered by F-C02-7) *)
+Theorem name_nested_in_itself_refuted :
   exists l, Forall (fun tv => wf (fst tv) (snd tv)) l /\
     conv_stream [] (fmt_stream PNone false fstate0 l) <> map Some l.
 Proof.
-  exists [ (TNamed (nm "foo") (TRec [(nm "a", u8)]), VRec [tok1]);
-           (TNamed (nm "foo") (TRec [(nm "b", u8)]), VRec [tok1]) ].
+  exists [ (TNamed (nm "nest") (TRec [(nm "k", TNamed (nm "nest") u8)]), VNull);
+           (TNamed (nm "nest") u8, tok1) ].
   split.
   - repeat constructor; vm_compute; intuition discriminate.
   - vm_compute. discriminate.
 Qed.
 
-(* a named type whose definition is a named type loses the inner name *)
-Theorem named_of_named_refuted :
-  exists t v, wf t v /\
-    option_map (fun r => fst (fst r)) (conv_val [] (fst (fmt_top PNone fstate0 t v)) None) <> Some t.
-Proof.
-  exists (TNamed (nm "outer") (TNamed (nm "inner") (TRec [(nm "a", u8)]))), (VRec [tok1]).
-  split.
-  - vm_compute. intuition discriminate.
-  - vm_compute. discriminate.
-Qed.
-
-(* non-vacuity of the hypotheses of the round-trip theorems *)
-Example anon_example :
-  let t := TRec [(nm "a", u8); (nm "b", TArr (TPrim 9)); (nm "c", TArr u8)] in
-  let v := VRec [tok1; VArr [tok1; VNull]; VArr []] in
-  anon t /\ wf t v /\ top_ok t v /\
-  conv_val [] (fst (fmt_top PNone fstate0 t v)) None = Some (t, v, []).
-Proof. vm_compute. intuition discriminate. Qed.
+(* non-vacuity: [good] admits named types, repeated and redefined names *)
+Example good_example :
+  let foo1 := TNamed (nm "foo") (TRec [(nm "a", u8)]) in
+  let foo2 := TNamed (nm "foo") (TRec [(nm "b", u8)]) in
+  let t := TRec [(nm "x", foo1); (nm "y", foo2); (nm "z", foo1);
+                 (nm "e", TNamed (nm "T") (TArr u8)); (nm "w", TNamed (nm "o") (TNamed (nm "i") u8))] in
+  let v := VRec [VRec [tok1]; VRec [tok1]; VRec [tok1]; VArr []; tok1] in
+  wf t v /\ good t /\
+  conv_val [] (fst (fmt_top PNone fstate0 t v)) None <> None.
+Proof. vm_compute. intuition (try discriminate). Qed.
